@@ -1003,3 +1003,141 @@ func GuardedByTrueResult(at ssa.Instruction, call ssa.Value, idx int) bool {
 	}
 	return false
 }
+
+// stripConv removes integer conversions.
+func stripConv(v ssa.Value) ssa.Value {
+	for {
+		switch x := v.(type) {
+		case *ssa.Convert:
+			v = x.X
+		case *ssa.ChangeType:
+			v = x.X
+		default:
+			return v
+		}
+	}
+}
+
+// IntBounds computes bounds of the integer v as it is used at `at`, from constants, phis and the
+// comparisons with constants that guard each contribution. A bound is missing (ok=false) when
+// some contribution is not limited by a constant comparison. Path-sensitive per phi edge.
+func IntBounds(v ssa.Value, at ssa.Instruction) (lo, hi int64, okLo, okHi bool) {
+	return intBounds(v, GuardingEdges(at), map[ssa.Value]bool{})
+}
+
+func intBounds(v ssa.Value, conds []CondEdge, seen map[ssa.Value]bool) (lo, hi int64, okLo, okHi bool) {
+	v = stripConv(v)
+	if k, ok := ConstInt(v); ok {
+		return k, k, true, true
+	}
+	if seen[v] {
+		return 0, 0, false, false
+	}
+	seen[v] = true
+	defer delete(seen, v)
+	if phi, ok := v.(*ssa.Phi); ok {
+		first := true
+		okLo, okHi = true, true
+		for i, e := range phi.Edges {
+			pred := phi.Block().Preds[i]
+			cs := append([]CondEdge{}, conds...)
+			if n := len(pred.Instrs); n > 0 {
+				cs = append(cs, GuardingEdges(pred.Instrs[n-1])...)
+				if iff, isIf := pred.Instrs[n-1].(*ssa.If); isIf && pred.Succs[0] != pred.Succs[1] {
+					cs = append(cs, CondEdge{iff, pred.Succs[0] == phi.Block()})
+				}
+			}
+			l, h, ol, oh := intBounds(e, cs, seen)
+			if first {
+				lo, hi, first = l, h, false
+			}
+			okLo, okHi = okLo && ol, okHi && oh
+			if l < lo {
+				lo = l
+			}
+			if h > hi {
+				hi = h
+			}
+		}
+		return
+	}
+	// a non-constant leaf: bounded by the guarding comparisons with constants
+	for _, e := range conds {
+		bo, ok := e.If.Cond.(*ssa.BinOp)
+		if !ok {
+			continue
+		}
+		op, x, y := bo.Op, bo.X, bo.Y
+		if _, isC := ConstInt(x); isC { // k op v  ==  v op' k
+			x, y = y, x
+			switch op {
+			case token.LSS:
+				op = token.GTR
+			case token.LEQ:
+				op = token.GEQ
+			case token.GTR:
+				op = token.LSS
+			case token.GEQ:
+				op = token.LEQ
+			}
+		}
+		k, isC := ConstInt(y)
+		if !isC || stripConv(x) != v {
+			continue
+		}
+		if !e.Branch { // negate
+			switch op {
+			case token.LSS:
+				op = token.GEQ
+			case token.LEQ:
+				op = token.GTR
+			case token.GTR:
+				op = token.LEQ
+			case token.GEQ:
+				op = token.LSS
+			case token.EQL:
+				op = token.NEQ
+			case token.NEQ:
+				op = token.EQL
+			}
+		}
+		setLo := func(n int64) {
+			if !okLo || n > lo {
+				lo, okLo = n, true
+			}
+		}
+		setHi := func(n int64) {
+			if !okHi || n < hi {
+				hi, okHi = n, true
+			}
+		}
+		switch op {
+		case token.LSS:
+			setHi(k - 1)
+		case token.LEQ:
+			setHi(k)
+		case token.GTR:
+			setLo(k + 1)
+		case token.GEQ:
+			setLo(k)
+		case token.EQL:
+			setLo(k)
+			setHi(k)
+		}
+	}
+	// v != lo excluded point
+	for _, e := range conds {
+		bo, ok := e.If.Cond.(*ssa.BinOp)
+		if !ok {
+			continue
+		}
+		k, isC := ConstInt(bo.Y)
+		if !isC || stripConv(bo.X) != v {
+			continue
+		}
+		if ((bo.Op == token.EQL && !e.Branch) || (bo.Op == token.NEQ && e.Branch)) && okLo && k == lo {
+			lo++
+		}
+	}
+	return
+}
